@@ -14,6 +14,8 @@ import (
 )
 
 type safetyCfg struct {
+	useInv   bool // dereferences behind a flag test may rest on a representation invariant
+	invRule  string
 	rule     string
 	roots    []*ssa.Function
 	eff      *Effects // specialisation context (dead blocks), may be nil
@@ -71,15 +73,18 @@ func isStrongNonNil(pr *Prover, v ssa.Value, b *ssa.BasicBlock) bool {
 		case *ssa.Parameter:
 			return pr.nnAssume[pr.key(v)]
 		case *ssa.Call:
-			return pr.callNonNil(x)
+			return pr.callNonNil(x) || pr.NonNil(x, b, 0) && pr.strongWhenNonNil(x)
 		case *ssa.Extract:
 			if call, ok := x.Tuple.(*ssa.Call); ok {
-				return pr.callNonNilIdx(call, x.Index)
+				return pr.callNonNilIdx(call, x.Index) || pr.NonNil(x, b, 0) && pr.strongWhenNonNil(x)
 			}
 			if ta, ok := x.Tuple.(*ssa.TypeAssert); ok && x.Index == 0 {
 				// v, ok := y.(T) on the ok edge: as strong as y
 				for _, dc := range domConds(b) {
 					if ex, isEx := dc.cond.(*ssa.Extract); isEx && ex.Tuple == x.Tuple && ex.Index == 1 && dc.truth {
+						if pr.payloadNN[pr.key(ta.X)] {
+							return true // ok ⇒ interface non-nil ⇒ payload non-nil (K0)
+						}
 						return isStrongNonNil(pr, ta.X, b)
 					}
 				}
@@ -152,6 +157,7 @@ func (p *Prog) newSafetyProver(fn *ssa.Function, cfg safetyCfg, fneeds *fieldNee
 	}
 	if fneeds != nil {
 		pr.fieldNN = fneeds.assumed[fn]
+		pr.guardedNN = fneeds.guarded[fn]
 	}
 	return pr
 }
@@ -165,6 +171,7 @@ func (p *Prog) runSafety(c *Check, cfg safetyCfg) *safetyStats {
 	needs := map[*ssa.Function]map[int]bool{}
 	p.cache["needs"] = needs
 	fneeds := newFieldNeeds()
+	fneeds.useInv = cfg.useInv
 	defer func() { delete(p.cache, "specctx"); delete(p.cache, "spectag"); delete(p.cache, "needs") }()
 	// recursion check
 	if cyc := p.callCycle(reach); cyc != "" {
@@ -189,7 +196,7 @@ func (p *Prog) runSafety(c *Check, cfg safetyCfg) *safetyStats {
 					}
 					return
 				}
-				if fneeds.note(p, fn, subj[0]) {
+				if fneeds.note(p, pr, fn, ins, subj[0]) {
 					changed = true
 				}
 			}
@@ -234,6 +241,9 @@ func (p *Prog) runSafety(c *Check, cfg safetyCfg) *safetyStats {
 				p.safetyInstr(pr, b, ins, ob)
 			}
 		}
+	}
+	for _, inv := range fneeds.invariants() {
+		p.checkFlagInv(c, cfg.invRule, inv)
 	}
 	fneeds.resolve(p, c, cfg, reach)
 	n := 0
